@@ -61,7 +61,7 @@ Qed.
 Theorem lru_size_bounded call c : 1 <= cap c -> length (items c) <= cap c ->
   cap (fst (lru_exec call c)) = cap c /\ length (items (fst (lru_exec call c))) <= cap c.
 Proof.
-  intros Hc Hl. destruct call as [k|k v|k|k| |]; cbn.
+  intros Hc Hl. destruct call as [k|k v|k|k| | |k]; cbn.
   - unfold lru_get. destruct (alookup k (items c)) eqn:E; cbn; [|auto]. split; auto.
     rewrite app_length. cbn. pose proof (length_aremove_lt _ _ _ E). lia.
   - split; auto. set (it := aremove k (items c) ++ [(k, v)]).
@@ -75,6 +75,7 @@ Proof.
   - destruct (alookup k (items c)); cbn; auto. split; auto. pose proof (length_aremove k (items c)). lia.
   - auto.
   - split; auto. lia.
+  - auto.
 Qed.
 
 (* ---------- TextFileSource: one call, file possibly edited between stat and read ---------- *)
@@ -175,20 +176,20 @@ Section YamlProofs.
     cache_valid (old l) /\ out l = yspec (reads l) /\ (once = true -> agree (reads l)) /\ Forall from_world (reads l).
   Definition full (l : yls) : Prop := map fst (reads l) = tree.
 
-  Definition tail3 : list (mstep (option yitem) (list nat) yls) := [Acq; Step (y_set); Rel].
+  Definition tail3 : list (mstep (option yitem) (list nat) yls) := [Acq; Step (y_set table); Rel].
   Definition Qy (l : yls) (p : list (mstep (option yitem) (list nat) yls)) : Prop :=
     p = yprog tt
     \/ p = [Step y_get; Rel] ++ map (fun f => Step (y_read table once f)) tree ++ tail3
     \/ (core l /\ exists fs, p = Rel :: map (fun f => Step (y_read table once f)) fs ++ tail3 /\ map fst (reads l) ++ fs = tree)
     \/ (core l /\ exists fs, p = map (fun f => Step (y_read table once f)) fs ++ tail3 /\ map fst (reads l) ++ fs = tree)
-    \/ (core l /\ full l /\ p = [Step y_set; Rel])
+    \/ (core l /\ full l /\ p = [Step (y_set table); Rel])
     \/ (core l /\ full l /\ p = [Rel])
     \/ (core l /\ full l /\ p = []).
 
   (* what every returned result is: get_data_spec of versions read in tree order, one version per file
      (fe12c42), each version being the file's version in some state of the run *)
   Definition Ry (r : R) : Prop :=
-    exists rd, r = flat (yspec rd) /\ (once = true -> agree rd) /\ map fst rd = tree /\ Forall from_world rd.
+    exists rd, r = yans table rd /\ (once = true -> agree rd) /\ map fst rd = tree /\ Forall from_world rd.
 
   Lemma core_read l f w o : Wi w -> core l -> core (fst (y_read table once f l o w)).
   Proof.
@@ -273,17 +274,21 @@ Section YamlProofs.
         * exists fs. split; [reflexivity|].
           pose proof (reads_of_read l f0 w o) as K. rewrite Hf in K. cbn [fst] in K. rewrite K.
           rewrite map_app. cbn [map fst]. rewrite <- app_assoc. exact Ht.
-    - injection H; intros; subst. unfold y_set in Hf. injection Hf as <- <-. pose proof (set_valid l Hc) as Es. split.
-      + intros it Hit. injection Hit as <-. unfold item_valid. cbn [yresult snap]. exact Es.
-      + right. right. right. right. right. left. split; [|split; [exact Hfl|reflexivity]].
-        destruct Hc as (Hv & Ho & Ha & Hfw). repeat split; cbn [old reads out]; auto.
+    - injection H; intros; subst. unfold y_set in Hf. destruct (rd_bad table (reads l)) eqn:Eb.
+      + (* the compile raised: nothing is stored *)
+        injection Hf as <- <-. split; [exact Hcv|].
+        right. right. right. right. right. left. split; [exact Hc|split; [exact Hfl|reflexivity]].
+      + injection Hf as <- <-. pose proof (set_valid l Hc) as Es. split.
+        * intros it Hit. injection Hit as <-. unfold item_valid. cbn [yresult snap]. exact Es.
+        * right. right. right. right. right. left. split; [|split; [exact Hfl|reflexivity]].
+          destruct Hc as (Hv & Ho & Ha & Hfw). repeat split; cbn [old reads out]; auto.
   Qed.
 
-  Lemma qy_end l : Qy l [] -> Ry (yret l).
+  Lemma qy_end l : Qy l [] -> Ry (yret table l).
   Proof.
     unfold Qy, Instances.yaml_prog, tail3. intros H. qy_cases H; try discriminate.
     - destruct fs; discriminate.
-    - destruct Hc as (Hv & Ho & Ha & Hfw). exists (reads l). unfold yret. rewrite Ho. repeat split; auto.
+    - destruct Hc as (Hv & Ho & Ha & Hfw). exists (reads l). unfold yret, yans. rewrite Ho. repeat split; auto.
   Qed.
 End YamlProofs.
 
@@ -338,7 +343,7 @@ Section YamlTheorems.
   Variable table : nat -> nat -> ydata.
   Variable tree : list nat.
   Variable once : bool.
-  Notation yrun := (run (option yitem) (list nat) yls unit R nat yls_begin (yaml_prog table tree once) yret bump).
+  Notation yrun := (run (option yitem) (list nat) yls unit R nat yls_begin (yaml_prog table tree once) (yret table) bump).
   Notation yinit w0 calls := (init (option yitem) (list nat) yls unit R (yls_begin tt) None w0 calls).
   Definition yenvs (sch : list (choice nat)) : list nat := envs_in nat sch.
   Definition in_run w0 (sch : list (choice nat)) (w : list nat) : Prop := In w (worlds_of w0 (yenvs sch)).
@@ -353,13 +358,13 @@ Section YamlTheorems.
     forall t, In t (threads s) -> Forall (Ry table tree once (in_run w0 sch)) (res t).
   Proof.
     intros s.
-    assert (Hw : worlds_ok (option yitem) (list nat) yls unit R nat yls_begin (yaml_prog table tree once) yret bump
+    assert (Hw : worlds_ok (option yitem) (list nat) yls unit R nat yls_begin (yaml_prog table tree once) (yret table) bump
                    (in_run w0 sch) (yinit w0 calls) sch).
     { intros p q E. rewrite (world_run (option yitem) (list nat) yls unit R nat). cbn [world init].
       unfold in_run, yenvs. rewrite E. unfold envs_in. rewrite flat_map_app. apply worlds_of_fold. }
     assert (Hck : Forall (Forall (fun _ : unit => True)) calls).
     { apply Forall_forall. intros l _. apply Forall_forall. auto. }
-    pose proof (oinv_run (option yitem) (list nat) yls unit R nat yls_begin (yaml_prog table tree once) yret bump
+    pose proof (oinv_run (option yitem) (list nat) yls unit R nat yls_begin (yaml_prog table tree once) (yret table) bump
                   (cache_valid table) (in_run w0 sch) (Qy table tree once (in_run w0 sch)) (Ry table tree once (in_run w0 sch))
                   (fun _ => True) (fun c _ => qy_begin table tree once (in_run w0 sch) c) (qy_acq table tree once (in_run w0 sch))
                   (qy_rel table tree once (in_run w0 sch)) (qy_step table tree once (in_run w0 sch))
@@ -376,22 +381,22 @@ End YamlTheorems.
    file state that was present during the run *)
 Theorem yaml_results_in_specs table tree w0 calls sch :
   length (yenvs sch) <= 1 ->
-  let s := run (option yitem) (list nat) yls unit R nat yls_begin (yaml_prog table tree true) yret bump
+  let s := run (option yitem) (list nat) yls unit R nat yls_begin (yaml_prog table tree true) (yret table) bump
                (init (option yitem) (list nat) yls unit R (yls_begin tt) None w0 calls) sch in
   forall t, In t (threads s) -> forall r, In r (res t) ->
-    In r (map (fun w => flat (yspec table (snapshot_of tree w))) (worlds_of w0 (yenvs sch))).
+    In r (map (fun w => yans table (snapshot_of tree w)) (worlds_of w0 (yenvs sch))).
 Proof.
   intros Hlen s t Ht r Hr.
   destruct (yaml_concurrent table tree true w0 calls sch) as [_ H]. fold s in H.
   specialize (H t Ht). rewrite Forall_forall in H. destruct (H r Hr) as (rd & -> & Ha & Hm & Hf).
   specialize (Ha eq_refl). rewrite Forall_forall in Hf. unfold from_world, in_run in Hf.
   destruct (yenvs sch) as [|g [|g' rest]] eqn:Ee; cbn [worlds_of map].
-  - left. f_equal. f_equal. symmetry. apply rd_is_snapshot; auto.
+  - left. f_equal. symmetry. apply rd_is_snapshot; auto.
     intros f v Hin. destruct (Hf _ Hin) as (w & [<-|[]] & Hv). exact Hv.
   - assert (Hs : forall f v, In (f, v) rd -> v = nth f w0 0 \/ v = nth f (bump g w0) 0).
     { intros f v Hin. destruct (Hf _ Hin) as (w & Hw & Hv). cbn in Hw. destruct Hw as [<-|[<-|[]]]; auto. }
     destruct (one_change_consistent w0 g rd Ha Hs) as [K|K].
-    + left. f_equal. f_equal. symmetry. apply rd_is_snapshot; auto.
-    + right. left. f_equal. f_equal. symmetry. apply rd_is_snapshot; auto.
+    + left. f_equal. symmetry. apply rd_is_snapshot; auto.
+    + right. left. f_equal. symmetry. apply rd_is_snapshot; auto.
   - cbn in Hlen. lia.
 Qed.
